@@ -170,6 +170,21 @@ Fixpoint lrun (o : opts) (x : xstate) (ps : list lop) : xstate * list lobs :=
 Definition init (o : opts) (cached0 : bool) (env : list env_step) : xstate :=
   {| known := sha_initially o; server := {| cached := cached0; runs := [] |}; envq := env; trace := [] |}.
 
+(** ---- the retry class of the commands Exec / ExecMulti issue ----
+    [Lua.mayRetryable]: EVALSHA and EVAL carry the retryable tag iff the script was created retryable
+    (NewLuaScriptRetryable…); the _RO commands are read-only commands, which the builder tags retryable
+    (IsRetryable() and IsReadOnly() both hold); SCRIPT LOAD is always built with ToRetryable().  The flag is a function of the script
+    and the command kind only: in particular the EVAL sent after a NOSCRIPT reply has the flag of the EVALSHA. *)
+Definition issue_flag (retryable : bool) (c : cmdk) : bool :=
+  match c with
+  | CScriptLoad => true
+  | CEvalshaRo | CEvalRo => true
+  | CEvalsha | CEval => retryable
+  end.
+
+(** may the client's retry loop re-send a command after a transport error? (exactly the retryable tag) *)
+Definition resend_allowed (retryable : bool) (c : cmdk) : bool := issue_flag retryable c.
+
 (** ---- correspondence cases (printed by harness/cmd/obs_lua) ----
     A case is a history on one Lua value and a fresh server; the environment steps are the ones the
     observer's fault hook applied, in the order the server received the script commands. *)
@@ -208,15 +223,18 @@ Definition lobs_eqb (a b : lobs) : bool :=
 (** the server-side view of a command: kind and tag (replies are compared through the callers' results) *)
 Definition sent_eqb (a b : cmdk * N) : bool := cmdk_eqb (fst a) (fst b) && (snd a =? snd b).
 
+Definition sentf_eqb (a b : cmdk * N * bool) : bool := sent_eqb (fst a) (fst b) && Bool.eqb (snd a) (snd b).
+
+(** [impl_sent]: kind, tag and the IsRetryable() flag of every command the implementation issued *)
 Inductive case :=
-| CLua (o : opts) (env : list env_step) (ops : list lop)
-       (impl_obs : list lobs) (impl_sent : list (cmdk * N)) (impl_runs : list N).
+| CLua (o : opts) (retryable : bool) (env : list env_step) (ops : list lop)
+       (impl_obs : list lobs) (impl_sent : list (cmdk * N * bool)) (impl_runs : list N).
 
 Definition check_case (c : case) : bool :=
   match c with
-  | CLua o env ops iobs isent iruns =>
+  | CLua o rt env ops iobs isent iruns =>
     let '(x, vs) := lrun o (init o false env) ops in
     list_eqb lobs_eqb vs iobs
-    && list_eqb sent_eqb (map fst (trace x)) isent
+    && list_eqb sentf_eqb (map (fun p => (fst p, issue_flag rt (fst (fst p)))) (trace x)) isent
     && list_eqb N.eqb (runs (server x)) iruns
   end.
